@@ -1,13 +1,43 @@
-import S2S.Spec.Routing
+import S2S.Proofs.RoutingC03Safe
+import S2S.Proofs.RoutingC03PhaseB
 namespace S2S.Routing
+
+theorem mono_bounded_of_inv {σ : State} {acts : List Act} (hI : Inv σ)
+    (henv : EnvOK Cfg.cur σ acts) (hnf : NoFaults acts) : MonoBoundedAlong Cfg.cur σ acts := by
+  induction acts generalizing σ with
+  | nil => trivial
+  | cons a rest ih =>
+    have hnf' : NoFaults rest := fun b hb => hnf b (List.mem_cons_of_mem _ hb)
+    obtain ⟨hr, henv'⟩ := henv
+    unfold MonoBoundedAlong
+    cases hstep : step Cfg.cur σ a with
+    | none =>
+      rw [hstep] at henv'
+      exact ih hI henv' hnf'
+    | some σ' =>
+      rw [hstep] at henv'
+      have := step_inv hI hstep (hnf a List.mem_cons_self) (by
+        intro s tasks high ha; subst ha; exact hr)
+      exact ⟨this.2, ih this.1 henv' hnf'⟩
+
 theorem mono_bounded_cur (ns nt : Nat) (acts : List Act)
     (henv : EnvOK Cfg.cur (State.init ns nt) acts) (hnf : NoFaults acts) :
-    MonoBoundedAlong Cfg.cur (State.init ns nt) acts := sorry
+    MonoBoundedAlong Cfg.cur (State.init ns nt) acts :=
+  mono_bounded_of_inv (Inv.init ns nt) henv hnf
+
 theorem eventually_complete_cur (ns nt : Nat) (acts : List Act)
     (henv : EnvOK Cfg.cur (State.init ns nt) acts) (hnf : NoFaults acts)
     (s : SId) (H : Int) (hnt : 0 < nt)
     (hact : ((run Cfg.cur (State.init ns nt) acts).src s).active = true)
-    (hreg : ∀ t, t < nt → ((run Cfg.cur (State.init ns nt) acts).tgt t).registered = true)
+    (hst : ∀ t, t < nt → ((run Cfg.cur (State.init ns nt) acts).tgt t).started = true)
     (hH : RecvOK nt ((run Cfg.cur (State.init ns nt) acts).src s) [] H) :
-    ∃ fuel, ((fairRound Cfg.cur fuel s H (fairRound Cfg.cur fuel s H (run Cfg.cur (State.init ns nt) acts))).src s).acksSent.getLast? = some H := sorry
+    ∃ fuel, ((fairRound Cfg.cur fuel s H (fairRound Cfg.cur fuel s H (run Cfg.cur (State.init ns nt) acts))).src s).acksSent.getLast? = some H := by
+  have hI2 : Inv2 nt (run Cfg.cur (State.init ns nt) acts) := run_Inv2 (Inv2.init ns nt) henv hnf
+  have hK : Keep nt s H (run Cfg.cur (State.init ns nt) acts) := ⟨⟨hI2, hst⟩, hact, hH.2.2.2⟩
+  have h1 : 1 ≤ H := hH.2.2.1
+  obtain ⟨fuel, hfuel⟩ := two_rounds_eq Cfg.cur s H (run Cfg.cur (State.init ns nt) acts)
+  refine ⟨fuel, ?_⟩
+  rw [hfuel]
+  obtain ⟨hK1, hI1⟩ := hK.rounded h1
+  exact round2 hK1 hI1 hnt h1
 end S2S.Routing
